@@ -22,6 +22,10 @@ def _run(ctx, n, nops, rep, concurrent=None):
     # the same property through the tool as a user runs it: fresh `python -m replicat` processes, a repository on disk, real faults
     cli_hist.run_scenarios(ctx, rep, {'plain': ctx.scale(6, 60)}, CLI_MINE)
     cli_hist.linked_shards_probe(ctx, rep, CLI_MINE + ('referenced_chunk_missing', 'snapshot_not_listed', 'gc_incomplete'))
+    # "the chunk objects are precisely the distinct chunks referenced" also after a delete / clean that met a refusing or failing
+    # file system: no listed snapshot without its chunks, no unreferenced chunk after a command that reported success
+    cli_hist.refused_removal_probe(ctx, rep, CLI_MINE + ('referenced_chunk_missing', 'gc_incomplete'))
+    cli_hist.scan_fault_probe(ctx, rep, CLI_MINE + ('referenced_chunk_missing', 'gc_incomplete'))
     # and over the remote adapters (B2 by bucket name and by bucket id, S3-compatible) against in-memory fake services
     remote_hist.remote_probe(ctx, rep, ('exception', 'repeat_uploaded_payload', 'not_exact'))
 
@@ -40,7 +44,8 @@ def search(ctx, broken) -> Report:
 
 
 def replay(ctx, obj):
-    rc = cli_hist.replay_cli(ctx, obj, CLI_MINE)
+    rc = cli_hist.replay_cli(ctx, obj, CLI_MINE + ('referenced_chunk_missing', 'snapshot_not_listed', 'gc_incomplete')
+                             if (obj.get('replay') or {}).get('probe') else CLI_MINE)
     if rc is not None:
         return rc
     if (obj.get('replay') or {}).get('probe') == 'remote':
